@@ -544,7 +544,7 @@ func (x *Exec) invoke(s *State, fr *Frame, fn *types.Func, recv Value, recvT typ
 	}
 	// contract: modular call
 	if c, ok := x.w.Contracts[orig]; ok && c != x.top && len(c.Errs) == 0 {
-		if x.spec == 0 || !x.inlinable(orig) {
+		if x.spec == 0 || !x.inlinable(orig) || c.Trusted {
 			return x.modularCall(s, fr, c, recv, args, call)
 		}
 	}
@@ -996,9 +996,28 @@ func (x *Exec) modularCall(s *State, fr *Frame, c *Contract, recv Value, args []
 	sig := nf.sig
 	nres := sig.Results().Len()
 	vals := make([]Value, nres)
+	// a trusted pure function of scalar arguments is a function: equal arguments give
+	// equal results (its results are uninterpreted functions of the arguments)
+	var fnArgs []Term
+	functional := c.Trusted && c.Block.Has("pure") && recv == nil
+	if functional {
+		for _, a := range args {
+			sc, ok := a.(*Scalar)
+			if !ok {
+				functional = false
+				break
+			}
+			fnArgs = append(fnArgs, sc.T)
+		}
+	}
 	for k := 0; k < nres; k++ {
 		t := sig.Results().At(k).Type()
-		vals[k] = x.fresh(s, t, sanitize(c.Block.Name)+fmt.Sprintf("$r%d", k))
+		if rs, ok := x.scalarSort(t); ok && functional && len(fnArgs) > 0 {
+			vals[k] = &Scalar{T: x.ctx.UF("fn$"+sanitize(fullName(c.Fn))+fmt.Sprintf("$r%d", k), rs, fnArgs...)}
+			x.note("assumed", name+" is a deterministic function of its arguments (trusted, pure)")
+		} else {
+			vals[k] = x.fresh(s, t, sanitize(c.Block.Name)+fmt.Sprintf("$r%d", k))
+		}
 		x.assumeWF(s, t, vals[k])
 		bind(c.Results[k], vals[k])
 	}
@@ -1121,6 +1140,12 @@ func (x *Exec) pvcHelper(s *State, fr *Frame, name string, args []Value, call *a
 		}
 		same := And(Eq(a.Rgn, b.Rgn), Eq(Add64(a.Off, a.Len), Add64(b.Off, b.Len)), Sle(a.Len, b.Len))
 		return &Scalar{T: x.ctx.Share(Or(Eq(a.Len, I64(0)), same))}
+	case "pvc_local":
+		a, ok := args[0].(*SliceV)
+		if !ok {
+			unsup("pvc_local on a non-slice")
+		}
+		return &Scalar{T: x.ctx.Share(Or(Eq(a.Cap, I64(0)), Ule(BVLit(firstAlloc, 64), a.Rgn)))}
 	case "pvc_assume":
 		s.assume(args[0].(*Scalar).T)
 		x.note("assumed", "explicit assume in ghost code: "+exprText(x.w.Fset, call.Args[0]))
